@@ -1,4 +1,5 @@
 -- Root of the `RactorModel` library: every model, lemma and property module.
+import RactorModel.Extracted
 import RactorModel.Props.C18
 import RactorModel.Props.C02
 import RactorModel.Props.C07
